@@ -12,7 +12,12 @@ def mosaic_values(rows, cols, dtype):
     """The underlying mosaic: value of canvas pixel (row r, col c) is 1000*r + c + 1 (exact in float32)."""
     r = np.asarray(rows, dtype=np.float64)[:, None]
     c = np.asarray(cols, dtype=np.float64)[None, :]
-    return (1000.0 * r + c + 1.0).astype(dtype)
+    v = (1000.0 * r + c + 1.0).astype(dtype)
+    # a sprinkling of saturated samples: infinities are defined values (only NaN means undefined)
+    k = (r * 7 + c * 13) % 997
+    v[k == 0] = np.inf
+    v[k == 1] = -np.inf
+    return v
 
 
 class Collection(object):
